@@ -1565,6 +1565,16 @@ class Engine:
                 # ``x = {}`` for a local declared as a symbolic dict: allocate an empty heap dict
                 from . import dicts
                 v, st = dicts.empty(self, tgt.id, want_l, st)
+            if isinstance(want_l, ListT) and isinstance(v, list) and v and not isinstance(want_l.elem, (tuple, list)):
+                # ``x = [a, b]`` for a local declared as a symbolic list: allocate a heap list with these items
+                from .contract import make_symbolic
+                base = self.new_base(tgt.id)
+                ref, st = make_symbolic(self, base, want_l, st, set())
+                items = st.heap[base]["items"]
+                for j, x in enumerate(v):
+                    items = z3.Store(items, j, self.to_sort(x, items.range()))
+                st = st.with_cell(base, "n", z3.IntVal(len(v))).with_cell(base, "items", items)
+                v = ref
             if isinstance(want_l, ListT) and isinstance(v, list) and not v:
                 # ``x = []`` for a local declared as a symbolic list: allocate an empty heap list
                 from .contract import make_symbolic
